@@ -1,4 +1,5 @@
 """C03 - Range card has exactly one row at every requested distance, muzzle to range."""
+import bisect
 import math
 from hypothesis import strategies as st
 
@@ -167,11 +168,16 @@ def check(case):
         n_req -= 1
     tol = lambda m: 1e-9 * max(1.0, m)
     used = [False] * len(rows)
+    order = sorted(range(len(xs)), key=lambda i: xs[i])
+    xs_sorted = [xs[i] for i in order]
     missing = []
     j = 0
     for k in range(n_req + 1):
         m = k * s
-        hits = [i for i, x in enumerate(xs) if abs(x - m) <= tol(m)]
+        # xs is ascending (checked above; if not, a violation has been recorded already): bisect instead of a scan
+        lo_i = bisect.bisect_left(xs_sorted, m - tol(m))
+        hi_i = bisect.bisect_right(xs_sorted, m + tol(m))
+        hits = [order[i] for i in range(lo_i, hi_i)]
         if len(hits) == 0:
             missing.append(k)
         elif len(hits) > 1:
